@@ -38,6 +38,7 @@ type Frame struct {
 	locs         map[ssa.Value]*Loc
 	closures     map[ssa.Value]*closureInfo
 	allocsByName map[string][]*ssa.Alloc
+	csMatched      map[*CallSiteSpec]bool // call-site clauses that matched at least one call
 	pendingArgLocs map[int]*Loc // interior-address arguments of the call being translated
 	argLocsUsed    bool         // the callee was inlined and bound them
 	curRangeIdx  *ssa.Alloc // hidden index of the loop whose invariants are being evaluated
@@ -65,7 +66,7 @@ func (vc *VC) newFrame(fn *ssa.Function, parent *Frame) *Frame {
 	frameCounter++
 	fr := &Frame{vc: vc, fn: fn, id: frameCounter, parent: parent,
 		vals: map[ssa.Value]Term{}, tuples: map[ssa.Value][]Term{}, locs: map[ssa.Value]*Loc{},
-		closures: map[ssa.Value]*closureInfo{}, allocsByName: map[string][]*ssa.Alloc{}, cellAlloc: map[*ssa.Alloc]bool{},
+		closures: map[ssa.Value]*closureInfo{}, allocsByName: map[string][]*ssa.Alloc{}, csMatched: map[*CallSiteSpec]bool{}, cellAlloc: map[*ssa.Alloc]bool{},
 		callOrd: map[string]int{}, blockIdx: map[*ssa.BasicBlock]int{}, pcs: map[*ssa.BasicBlock]Term{}, ends: map[*ssa.BasicBlock]*State{},
 		freeLocs: map[*ssa.FreeVar]*Loc{}, rangeMaps: map[ssa.Value]ssa.Value{}}
 	if parent != nil {
